@@ -203,6 +203,9 @@ func (s *Solver) GetModel(vars []*Term) (Model, error) {
 		sb.WriteString(v.name)
 	}
 	sb.WriteString("))")
+	if len(m) == len(vars) {
+		return m, nil
+	}
 	t0 := time.Now()
 	s.send(sb.String())
 	s.send(`(echo "@@sync")`)
